@@ -245,6 +245,11 @@ def run_case(ctx, case):
             exp = canon.strip_html_ns(exp)
         if flat != exp and kind == "dom":
             exp2 = minidom_collision(exp)
+            if exp2 != flat and len(exp2) == len(flat):
+                # the eviction happens where attributes are set in bulk (element creation); attributes merged one by one
+                # into an existing html/body element (a second <html>/<body> tag) are not affected: per element, either
+                # reading may apply
+                exp2 = [b if b == c else a for a, b, c in zip(exp, exp2, flat)]
             if exp2 == flat:
                 ctx.known_finding("dom-attr-localname-collision", case,
                                   "dom builder drops an attribute: " + canon.diff_text(exp, flat, "etree", "dom"))
